@@ -69,7 +69,7 @@ def instances(tier, seed):
         h = rng.choice(H)
         if (not fam.rational_tables(degree, scheme) or not fam.grid_is_rational(g)) and not fam.horizon_symbolic(h):
             h = rng.choice(Hsym)
-        add(fam.with_horizon(s, h), Cfg('DC', N=N, M=M, degree=degree, scheme=scheme, grid=g))
+        add(fam.with_horizon(s, h), Cfg('DC', N=N, M=M, degree=degree, scheme=scheme, grid=g), soft=True, timeout=90)
     return items
 
 
@@ -112,9 +112,11 @@ def run(item):
         ch2 = Checker(inst, timeout_ms=10000)
         refm = multi(inst, lambda tr: ref.dyn_atoms(tr, mut='root_time'))
         _, un2, _ = ch2.match(refm, impl_atoms(inst), far=False)
+        from ..match import close as _close
+        differs = any(not _close(a[1], b[1]) for a, b in zip(refm[0], refa[0]))      # the mutation really changes the reference here
         if un2:
             twins_ok += 1
-        else:
+        elif differs:
             twins_bad += 1
         for k in ('unsat', 'sat', 'unknown', 'queries', 'solver_s'):
             ch.stats[k] = ch.stats.get(k, 0) + ch2.stats.get(k, 0)
